@@ -8,7 +8,7 @@ use crate::refvalue::RefValue;
 use proptest::prelude::*;
 use serde_json::{json, Value as J};
 
-pub const CLASSES: &[&str] = &["rejected_by_all", "accepted_by_all(strict-valid)", "accepted_by_some_records_only", "syntax_invalid_with_surrogate_events"];
+pub const CLASSES: &[&str] = &["rejected_by_all", "accepted_by_all(strict-valid)", "accepted_by_some_records_only", "syntax_invalid_with_surrogate_events", "ill_formed_utf8_rejected_by_all"];
 
 const TWO_EPS: [Ep; 2] = [Ep::StrWith, Ep::SliceWith];
 
@@ -78,7 +78,17 @@ fn checker_nt<'a>(eps: &'a [Ep], strict_valid_counts: bool) -> impl Fn(&mut Acc,
 	move |acc, input| {
 		let text = match std::str::from_utf8(input) {
 			Ok(t) => t,
-			Err(_) => return,
+			Err(_) => {
+				// ill-formed UTF-8 is not among the deviations the lenient options permit: every record must reject it
+				for l in Leniency::ALL {
+					let o = options(l.truncated_pair, l.invalid_codepoint);
+					if <json_syntax::Value as json_syntax::Parse>::parse_slice_with(input, o).is_ok() {
+						return acc.fail(input, format!("parse_slice_with with {l:?} accepted ill-formed UTF-8"));
+					}
+				}
+				acc.class(4);
+				return;
+			}
 		};
 		match property(text, eps) {
 			Ok((class, nt)) => {
@@ -192,7 +202,7 @@ pub fn run(ctx: &mut Ctx) {
 		let corpus = pf::load_corpus(ctx, 40);
 		ctx.begin_family("F4_corpus_byte_edits");
 		let c = checker(&TWO_EPS);
-		let probes: &[u8] = if ctx.quick() { b"\"\\uDdCc8]}" } else { pf::PROBE_BYTES };
+		let probes: &[u8] = if ctx.quick() { b"\"\\uDdCc8]}\xff\x80\xc3\xed" } else { pf::PROBE_BYTES };
 		let acc = pf::corpus_edits(&corpus, probes, &c);
 		ctx.add(acc.into_fam("F4_corpus_byte_edits", &format!("corpus documents (JSONTestSuite incl. its surrogate cases + generated) with single-byte edits ({} probe bytes) under all 4 option records; {rule_nt}", probes.len()), false, CLASSES, &json!({})));
 	}
